@@ -18,7 +18,8 @@ use std::net::SocketAddr;
 pub struct DestLedger {
     /// cumulative per-destination oracle for connection transmits (opt-in per scenario)
     pub on: bool,
-    validated: [HashSet<SocketAddr>; 2],
+    /// per node (any number of nodes: scenario `multi` has more than two)
+    validated: HashMap<usize, HashSet<SocketAddr>>,
     /// per (node, connection): for each queued datagram event, did the datagram contain a Handshake packet?
     marks: HashMap<(usize, usize), VecDeque<bool>>,
     /// per (node, destination): tokens of the Retry packets the node sent there
@@ -87,18 +88,18 @@ pub fn has_handshake_packet(d: &[u8]) -> bool {
 
 impl DestLedger {
     pub fn trust(&mut self, node: usize, a: SocketAddr) {
-        self.validated[node].insert(a);
+        self.validated.entry(node).or_default().insert(a);
     }
 
     pub fn is_validated(&self, node: usize, a: &SocketAddr) -> bool {
-        self.validated[node].contains(a)
+        self.validated.get(&node).is_some_and(|v| v.contains(a))
     }
 
     /// every datagram handed to `Endpoint::handle` of `node`
     pub fn on_rx(&mut self, node: usize, from: SocketAddr, data: &[u8]) {
         if let Some((0, v, token, _)) = long_packet(data) {
             if v != 0 && !token.is_empty() && self.retry_tokens.get(&(node, from)).is_some_and(|ts| ts.contains(&token)) {
-                self.validated[node].insert(from);
+                self.validated.entry(node).or_default().insert(from);
             }
         }
     }
@@ -113,7 +114,7 @@ impl DestLedger {
     pub fn handled(&mut self, node: usize, ch: usize, from: SocketAddr, authed_grew: bool) {
         let hs = self.marks.get_mut(&(node, ch)).and_then(|q| q.pop_front()).unwrap_or(false);
         if hs && authed_grew {
-            self.validated[node].insert(from);
+            self.validated.entry(node).or_default().insert(from);
         }
     }
 
